@@ -9,6 +9,8 @@ import json
 import math
 from types import SimpleNamespace
 
+import numpy as np
+
 from rv.gen import geoms
 
 ANCHORS = ("data/geometries.py",)
@@ -102,12 +104,32 @@ def check_instance(ctx, g, where="ambient"):
 
 
 # ------------------------------------------------------------------- judging
-CONTAINERS = ("tuple_inner", "tuple_all", "deque_inner", "mixed")
+CONTAINERS = ("tuple_inner", "tuple_all", "deque_inner", "mixed", "np_scalars", "decimal", "fraction")
+
+
+def _numtype(x, kind):
+    """The same real number held as another numeric type (numpy scalars from array code, Decimal / Fraction from
+    exact arithmetic); conversions below preserve the value exactly."""
+    import decimal
+    import fractions
+
+    if isinstance(x, bool) or not isinstance(x, (int, float)):
+        return x
+    if kind == "np_scalars":
+        if isinstance(x, int):
+            return np.int64(x) if abs(x) < 2 ** 62 else x
+        f32 = np.float32(x)
+        return f32 if float(f32) == x else np.float64(x)
+    if isinstance(x, float) and not math.isfinite(x):
+        return x
+    return decimal.Decimal(x) if kind == "decimal" else fractions.Fraction(x)
 
 
 def _contain(c, container, depth=0):
     """The same numeric structure handed over in other sequence containers than lists (``list(zip(times, freqs))``
     gives a list of tuples, shapely coords are tuples, a ring buffer is a deque)."""
+    if container in ("np_scalars", "decimal", "fraction"):
+        return [_contain(v, container, depth + 1) for v in c] if isinstance(c, list) else _numtype(c, container)
     if container == "list" or not isinstance(c, list):
         return c
     leaf = all(not isinstance(v, list) for v in c)
@@ -359,7 +381,7 @@ def run(ctx):
                 op = op2 if op == "none" else f"{op}+{op2}"
             ctx.case((tag, op, "valid" if ref_valid(tag, c) else "invalid"), {"type": tag, "coordinates": c}, nontrivial=op != "none")
             judge(ctx, tag, c)
-            if i % 3 == 0 and isinstance(c, list):
+            if i % 3 == 0 and (isinstance(c, list) or (i // 3) % len(CONTAINERS) >= 4):
                 cont = CONTAINERS[(i // 3) % len(CONTAINERS)]
                 ctx.case((tag, op, "valid" if ref_valid(tag, c) else "invalid", cont), {"type": tag, "coordinates": c, "container": cont}, nontrivial=op != "none")
                 judge(ctx, tag, c, container=cont)
